@@ -194,7 +194,7 @@ WIRE_NOTE = "; the wire suites run the real driver on loopback against a raw qui
 PROPS["C01"] = {
     "title": "Stream bytes arrive exactly, in order, with framing invisible",
     "corr_modules": ["E2C", "FrameC"],
-    "suites": [("e2", "streams", ["debug"]), ("e1", "sheader", ["debug"])],
+    "suites": [("e2", "streams", ["debug"]), ("e2", "emit", ["debug"]), ("e1", "sheader", ["debug"])],
     "technique": PROOF_TECH,
     "level_text": "theorems: for every valid session id, payload and stream ending the accept path strips exactly the preamble the opening path emits (uni and bidi) and hands over exactly the payload; the preamble readers are invariant under every segmentation/Pending schedule (poll machines proved); tie: the real driver reads streams written by a raw quinn peer with the preamble cut at every offset, payloads up to several KB, concurrent streams",
     "level_note": CODEC_NOTE + WIRE_NOTE + "; QUIC is assumed to be a reliable ordered byte pipe per stream",
